@@ -4,6 +4,7 @@ import EaselModel.Miniapps.AliLemmas
 import EaselModel.Miniapps.Compstruct
 import EaselModel.Miniapps.Compalign
 import EaselModel.Miniapps.SmallLemmas
+import EaselModel.Miniapps.Alimerge
 /-! # C13 — property theorems about the reference functions of the miniapps (statements + glue only)
 
 The property has two halves. The half a model can express — "for valid inputs the core tools produce what their manual
@@ -697,6 +698,40 @@ example : (spansOf "stockholm" exSto2).map indexable = some false := by decide +
 
 end Afetch
 
+/-! ## esl-alimerge (in-memory mode; `Miniapps/Alimerge.lean`, complete stdout compared): "the merged alignment restricted to the sequences
+    of one input equals that input up to inserted all-gap columns" -/
+section Alimerge
+open EaselModel.Msafile EaselModel.Miniapps.Ali
+
+/-- **restriction**: whatever gap-count vector `determine_gap_columns_to_add` produced for an input (any vector with one entry per
+    alignment position plus one), dropping the added columns from a merged row returns the input row, residue for residue -/
+theorem alimerge_restriction (ngapA : List Nat) (gapc : UInt8) (row : Bytes) (h : row.length + 1 ≤ ngapA.length) :
+    deflate ngapA (inflate ngapA gapc row) = row := deflate_inflate ngapA gapc row h
+
+/-- the merged row is longer by exactly the number of added columns … -/
+theorem alimerge_length (ngapA : List Nat) (gapc : UInt8) (row : Bytes) (h : ngapA.length = row.length + 1) :
+    (inflate ngapA gapc row).length = row.length + ngapA.sum := inflate_length ngapA gapc row h
+
+/-- … so the rows (and the RF line) of one input, inflated with that input's vector, stay aligned with each other: the added
+    columns are the same columns in every row of the input, and every character added is the gap character -/
+theorem alimerge_rows_stay_aligned (ngapA : List Nat) (gapc : UInt8) (r₁ r₂ : Bytes)
+    (h₁ : ngapA.length = r₁.length + 1) (h₂ : r₂.length = r₁.length) :
+    (inflate ngapA gapc r₁).length = (inflate ngapA gapc r₂).length := by
+  rw [inflate_length ngapA gapc r₁ h₁, inflate_length ngapA gapc r₂ (by omega)]; omega
+
+/-- non-vacuity: two alignments with consensus `xxxxx`; the first has a 2-column insert after consensus column 2, the second one
+    column in front and two behind: widths (1,0,2,0,0,2); complete output of the tool for this input (checked against the binary) -/
+def exM1 : Bytes := str "# STOCKHOLM 1.0\ns1    AC.gG-U\ns2    ACa.GGU\n#=GC RF xx..xxx\n//\n"
+def exM2 : Bytes := str "# STOCKHOLM 1.0\nt1    gACGGUcc\nt2    .AC-GU..\n#=GC RF .xxxxx..\n//\n"
+example : insertWidths (str "xx..xxx") = [0, 0, 2, 0, 0, 0] ∧ insertWidths (str ".xxxxx..") = [1, 0, 0, 0, 0, 2] := by decide +kernel
+example : gapsToAdd (str "xx..xxx") [1, 0, 2, 0, 0, 2] = [1, 0, 0, 0, 0, 0, 0, 2] := by decide +kernel
+example : gapsToAdd (str ".xxxxx..") [1, 0, 2, 0, 0, 2] = [0, 0, 0, 2, 0, 0, 0, 0, 0] := by decide +kernel
+example : alimerge "stockholm" [exM1, exM2]
+    = some (str "# STOCKHOLM 1.0\n\ns1      .AC.gG-U..\ns2      .ACa.GGU..\nt1      gAC..GGUcc\nt2      .AC..-GU..\n#=GC RF .xx..xxx..\n//\n") := by
+  decide +kernel
+
+end Alimerge
+
 /-! ## the `--small` (streamed, Pfam-only) paths: `esl_msafile2_RegurgitatePfam` as esl-alimask / esl-alimanip call it
     (`Miniapps/Small.lean`; stdout compared exactly, also with #=GF / #=GS / #=GR / #=GC / comment / blank lines and several records) -/
 section Small
@@ -758,6 +793,21 @@ example : reformatSmallAfa { rna := true, rename := some "nn".toList } ("# STOCK
     = some [">nn.1".toList, "ACGU".toList, ">nn.2".toList, "A-UU".toList] := by decide +kernel
 example : reformatSmallAfa {} ["# STOCKHOLM 1.0".toList, "#=GS s1 AC X1".toList, "#=GS s1 DE a b".toList, "#=GS s2 DE c".toList, "s1 AC".toList, "s2 GU".toList, "//".toList]
     = some [">s1 X1 a b".toList, "AC".toList, ">s2 c".toList, "GU".toList] := by decide +kernel
+
+/-- **`esl-reformat --small --informat pfam pfam`** (`regurgitate_pfam_as_pfam`, no WUSS option) on the rows of a record, any option setting:
+    every sequence line keeps its name and its run of blanks, its residues are converted pointwise by the same `convChar` as in the
+    non-small reference ("converts … without changing names or residues"), then `//`; the rest of the file is left for the next record -/
+theorem small_reformat_pfam_rows (o : ReformatOpts) (r0 : Row) (rs : List Row) (rest : List Line)
+    (hwf : ∀ r ∈ r0 :: rs, r.WF) (hdist : ∀ r ∈ rs, r.name ≠ r0.name)
+    (hlen : ∀ r ∈ r0 :: rs, ∀ r' ∈ r0 :: rs, r'.text.length = r.text.length) :
+    reformatSmallPfamBody o none none 0 ((r0 :: rs).map Row.line ++ "//".toList :: rest) []
+      = some ((r0 :: rs).map (Row.pfamOut o) ++ ["//".toList], rest) := by
+  have := pfamBody_rows o (r0 :: rs) none 0 none [] rest hwf ⟨fun _ => hdist, fun h => absurd rfl h⟩
+    (fun r hr => ⟨Or.inl rfl, hlen r hr⟩)
+  simpa using this
+
+example : reformatSmallPfamOne { upper := true, gapsym := some '-' } ["# STOCKHOLM 1.0".toList, "#=GF ID x".toList, "s1   ac.gu".toList, "#=GR s1 PP 99.99".toList, "//".toList, "next".toList]
+    = some (["# STOCKHOLM 1.0".toList, "#=GF ID x".toList, "s1   AC-GU".toList, "#=GR s1 PP 99.99".toList, "//".toList], ["next".toList]) := by decide +kernel
 
 /-- `esl-alistat --small` prints the non-small summary minus the three lines that need the sequences in memory -/
 theorem small_alistat_is_projection (ls : List (Bool × String)) :
